@@ -501,7 +501,12 @@ pub mod inner {
                 "stride ({stride}) > data length ({len})"
             );
             if h > 0 {
-                let size = (h - 1) * stride + w;
+                // Checked, so that release builds do not accept a size
+                // that wraps around. All index math is done in `u32`
+                let size = (h - 1)
+                    .checked_mul(stride)
+                    .and_then(|s| s.checked_add(w))
+                    .expect("required size should fit in u32");
                 assert!(
                     size as usize <= len,
                     "required size ({size}) > data length ({len})"
